@@ -137,6 +137,12 @@ func c04Signers() []c04Signer {
 			crlCA := world.Issue(p.Root, world.CertOpt{Subject: &certCA.Cert.Subject, IsCA: true, KeyKind: kind, KeyIdx: 7, Serial: big.NewInt(42), KeyUsage: x509.KeyUsageCRLSign})
 			return certCA, []*world.Ident{certCA, p.Root}, []*x509.Certificate{crlCA.Cert}, certCA
 		}},
+		{"end-entity-no-keyusage-no-basicconstraints-alone-in-its-chain-names-itself", false, func(kind string) (*world.Ident, []*world.Ident, []*x509.Certificate, *world.Ident) {
+			// as above, and the client certificate says nothing about itself (no keyUsage, no basicConstraints): it still is
+			// no CA certificate above the end-entity and no configured trusted signer
+			ca := c04CA(kind)
+			return ca, nil, nil, nil
+		}},
 		{"unrelated-key", false, func(kind string) (*world.Ident, []*world.Ident, []*x509.Certificate, *world.Ident) {
 			ca := c04CA(kind)
 			un := world.Issue(nil, world.CertOpt{CN: "unrelated " + kind, IsCA: true, KeyKind: kind, KeyIdx: 4, Serial: big.NewInt(33)})
@@ -348,13 +354,21 @@ func c04Run(c c04Case) (inForce bool, probe Verdict, entitled bool, note string)
 			return
 		}
 		if c.Path == "first-load" {
-			w.Net.Serve(c04URL, "candidate", doc)
-			_, err := w.Repo.AddCRL(loc, chains)
-			probe = w.IsRevoked(leaf.Cert, loc)
-			inForce = probe.Err == "" && probe.Panic == ""
-			if err == nil && !inForce {
-				note = "AddCRL returned nil but strict lookup failed: " + probe.Err
+			// through the checker, as a handshake does it: which certificates of the verified chains are offered as signers
+			// of the list is the checker's business
+			cw := NewCW(CWOpt{SigMode: config.SignatureValidationModeVerify, Strict: true, Trusted: trusted})
+			defer os.RemoveAll(cw.Dir)
+			if err := cw.Provision(); err != nil {
+				note = "setup: provision: " + err.Error()
+				return
 			}
+			vsched.Drain()
+			cw.Net.Serve(c04URL, "candidate", doc)
+			probe = cw.Lookup(leaf, chain)
+			vsched.Drain()
+			inForce = probe.Err == "" && probe.Panic == ""
+			cw.Chk.Cleanup()
+			vsched.Drain()
 			return
 		}
 		// refresh: a good v1 (not listing 101) signed by the issuing CA is in force first
